@@ -309,6 +309,8 @@ fn cycle_cols(n: usize, not_null: &dyn Fn(usize) -> bool) -> Arc<Vec<Column>> {
                 let mut f = if u { ColumnFlags::UNSIGNED_FLAG } else { ColumnFlags::empty() };
                 if not_null(i) {
                     f |= ColumnFlags::NOT_NULL_FLAG;
+                    // NOT NULL rarely comes alone: other flag bits next to it must not matter
+                    f |= [ColumnFlags::empty(), ColumnFlags::PRI_KEY_FLAG | ColumnFlags::AUTO_INCREMENT_FLAG, ColumnFlags::UNIQUE_KEY_FLAG, ColumnFlags::BINARY_FLAG | ColumnFlags::NO_DEFAULT_VALUE_FLAG, ColumnFlags::MULTIPLE_KEY_FLAG][(i + n) % 5];
                 }
                 col(&format!("c{}", i), t, f)
             })
@@ -748,15 +750,35 @@ impl Family for TemporalBin {
 /// a refused cell followed by a replacement for the same column: the row must carry the
 /// values that were accepted
 struct Recover;
+#[derive(Clone)]
+struct Bad {
+    v: Val,
+    what: &'static str,
+    /// column type the refused value is offered to (None: the LONG NOT NULL column of the others)
+    /// with a replacement that fits it and what the client must then decode (length form ignored)
+    own: Option<(ColumnType, Val, BinVal)>,
+}
 impl Recover {
-    fn bads() -> Vec<(Val, &'static str)> {
+    fn bads() -> Vec<Bad> {
+        let d = NaiveDate::from_ymd_opt(2024, 2, 29).unwrap();
+        let date = (ColumnType::MYSQL_TYPE_DATE, Val::Date(d), BinVal::Date(4, 2024, 2, 29, 0, 0, 0, 0));
+        let dt = (ColumnType::MYSQL_TYPE_DATETIME, Val::DateTime(d.and_hms_micro_opt(1, 2, 3, 40).unwrap()), BinVal::Date(11, 2024, 2, 29, 1, 2, 3, 40));
+        let tm = (ColumnType::MYSQL_TYPE_TIME, Val::Dur(Duration::new(90061, 5000)), BinVal::Time(12, false, 1, 1, 1, 1, 5));
+        let b = |v: Val, what: &'static str, own: Option<(ColumnType, Val, BinVal)>| Bad { v, what, own };
         vec![
-            (Val::Null, "NULL into NOT NULL"),
-            (Val::Str("text".into()), "string into an integer column"),
-            (Val::I64(i64::MAX), "integer beyond the column"),
-            (Val::Myc(MV::Date(2021, 13, 1, 0, 0, 0, 0)), "invalid generic date"),
-            (Val::Myc(MV::Time(true, 0, 1, 0, 0, 0)), "negative generic time"),
-            (Val::F64(1.5), "double into an integer column"),
+            b(Val::Null, "NULL into NOT NULL", None),
+            b(Val::Str("text".into()), "string into an integer column", None),
+            b(Val::I64(i64::MAX), "integer beyond the column", None),
+            b(Val::Myc(MV::Date(2021, 13, 1, 0, 0, 0, 0)), "invalid generic date", None),
+            b(Val::Myc(MV::Time(true, 0, 1, 0, 0, 0)), "negative generic time", None),
+            b(Val::F64(1.5), "double into an integer column", None),
+            b(Val::Date(NaiveDate::from_ymd_opt(70000, 1, 1).unwrap()), "date whose year the wire format cannot carry, into a DATE column", Some(date.clone())),
+            b(Val::DateTime(NaiveDate::from_ymd_opt(-1, 12, 31).unwrap().and_hms_opt(1, 2, 3).unwrap()), "datetime before year 0, into a DATETIME column", Some(dt.clone())),
+            b(Val::Dur(Duration::new(40 * 86400, 0)), "duration beyond the TIME range, into a TIME column", Some(tm.clone())),
+            b(Val::Myc(MV::Date(2024, 2, 29, 24, 0, 0, 0)), "generic datetime with hour 24, into a DATETIME column", Some(dt.clone())),
+            b(Val::Myc(MV::Date(2016, 12, 31, 23, 59, 60, 0)), "generic datetime with second 60, into a DATETIME column", Some(dt.clone())),
+            b(Val::Myc(MV::Time(false, 40, 0, 0, 0, 0)), "generic time of 40 days, into a TIME column", Some(tm.clone())),
+            b(Val::Myc(MV::Date(2021, 2, 30, 0, 0, 0, 0)), "generic date February 30, into a DATE column", Some(date)),
         ]
     }
 }
@@ -773,19 +795,30 @@ impl Family for Recover {
     fn run(&self, idx: u64, st: &mut Stats) -> Result<(), Violation> {
         let bads = Self::bads();
         let d = digits(idx, &[bads.len() as u64, 4, 2]);
-        let (bad, what) = bads[d[0] as usize].clone();
+        let Bad { v: bad, what, own } = bads[d[0] as usize].clone();
         let pos = d[1] as usize;
         let second_row = d[2] == 1;
         st.nontrivial += 1;
         st.bump("recoveries");
-        let cols: Arc<Vec<Column>> = Arc::new((0..4).map(|i| col(&format!("c{}", i), ColumnType::MYSQL_TYPE_LONG, ColumnFlags::NOT_NULL_FLAG)).collect());
+        let cols: Arc<Vec<Column>> = Arc::new(
+            (0..4)
+                .map(|i| match (&own, i == pos) {
+                    (Some((ct, _, _)), true) => col(&format!("c{}", i), *ct, ColumnFlags::empty()),
+                    _ => col(&format!("c{}", i), ColumnType::MYSQL_TYPE_LONG, ColumnFlags::NOT_NULL_FLAG),
+                })
+                .collect(),
+        );
+        let good_at_pos = |k: i32| match &own {
+            Some((_, v, _)) => v.clone(),
+            None => Val::I32(k),
+        };
         let mut prog = vec![WOp::Start(cols.clone())];
         if second_row {
-            prog.push(WOp::WriteRow((0..4).map(|i| Val::I32(100 + i)).collect()));
+            prog.push(WOp::WriteRow((0..4).map(|i| if i as usize == pos { good_at_pos(100 + i) } else { Val::I32(100 + i) }).collect()));
         }
         for i in 0..4 {
             if i == pos {
-                prog.push(WOp::WriteColOr(bad.clone(), Val::I32(-7)));
+                prog.push(WOp::WriteColOr(bad.clone(), good_at_pos(-7)));
             } else {
                 prog.push(WOp::WriteCol(Val::I32(10 + i as i32)));
             }
@@ -829,8 +862,15 @@ impl Family for Recover {
             [Unit::ResultSet { rows, .. }] if rows.len() == 1 + second_row as usize => {
                 let r = rows.last().unwrap();
                 for i in 0..4 {
-                    let want = if i == pos { -7 } else { 10 + i as i64 };
-                    if r[i] != Cell::Bin(BinVal::Int(want)) {
+                    let ok = match (&own, i == pos) {
+                        (Some((_, _, want)), true) => match (&r[i], want) {
+                            (Cell::Bin(BinVal::Date(_, y, mo, d, h, mi, s, us)), BinVal::Date(_, y2, mo2, d2, h2, mi2, s2, us2)) => (y, mo, d, h, mi, s, us) == (y2, mo2, d2, h2, mi2, s2, us2),
+                            (Cell::Bin(BinVal::Time(_, ng, d, h, m, s, us)), BinVal::Time(_, ng2, d2, h2, m2, s2, us2)) => (ng, d, h, m, s, us) == (ng2, d2, h2, m2, s2, us2),
+                            _ => false,
+                        },
+                        _ => r[i] == Cell::Bin(BinVal::Int(if i == pos { -7 } else { 10 + i as i64 })),
+                    };
+                    if !ok {
                         return Err(Violation::new("recovered-row-differs", format!("{} at column {} then replacement: client decodes {:?}", what, pos, r)));
                     }
                 }
@@ -842,7 +882,7 @@ impl Family for Recover {
     fn describe(&self, idx: u64) -> J {
         let bads = Self::bads();
         let d = digits(idx, &[bads.len() as u64, 4, 2]);
-        json!({"refused_value": bads[d[0] as usize].1, "column": d[1], "after_a_good_row": d[2] == 1})
+        json!({"refused_value": bads[d[0] as usize].what, "column": d[1], "after_a_good_row": d[2] == 1})
     }
 }
 
